@@ -196,4 +196,36 @@ theorem FailsI.adequate {env : Vm.Env} {vm : VmCtx} {c : Chunk} {pc : Nat} {st :
       rw [this, hnested]
     rw [hstep]
 
+/-! ### chunks without `Include` -/
+
+/-- no `Include` instruction in the code -/
+def noInclude (code : List VEntry) : Bool :=
+  code.all fun e => match e.1 with
+    | .include_ _ => false
+    | _ => true
+
+theorem noInclude_at {code : List VEntry} (h : noInclude code = true) {pc : Nat} {name : String}
+    {sps : List Span} (hc : code[pc]? = some (.include_ name, sps)) : False := by
+  have hmem : (VInstr.include_ name, sps) ∈ code := List.mem_of_getElem? hc
+  have := List.all_eq_true.mp h _ hmem
+  simp at this
+
+/-- on a chunk without `Include`, a run is a run that does not depend on the nested interpreter -/
+theorem RunI.toRun {env : Vm.Env} {vm : VmCtx} {c : Chunk} {pc : Nat} {st : State} {tr : List Nat}
+    {pc' : Nat} {st' : State} (h : RunI env vm c pc st tr pc' st') (hno : noInclude c.code = true) :
+    Run env vm c pc st tr pc' st' := by
+  induction h with
+  | nil => exact .nil _ _
+  | cons hc hs _ ih => exact .cons hc hs (ih hno)
+  | incl hc _ _ _ _ _ _ => exact (noInclude_at hno hc).elim
+
+theorem FailsI.toFails {env : Vm.Env} {vm : VmCtx} {c : Chunk} {pc : Nat} {st : State}
+    {tr : List Nat} {re : RErr} (h : FailsI env vm c pc st tr re) (hno : noInclude c.code = true) :
+    Fails env vm c pc st tr re := by
+  induction h with
+  | here hc hs => exact .here hc hs
+  | cons hc hs _ ih => exact .cons hc hs (ih hno)
+  | incl hc _ _ _ _ _ => exact (noInclude_at hno hc).elim
+  | inclFails hc _ _ _ => exact (noInclude_at hno hc).elim
+
 end Tera.Refine
